@@ -590,20 +590,6 @@ func (f FilterCCITTFax) Decode(_ Version, r io.Reader, budget *membudget.Budget)
 		return asMalformedFilter(nil, err)
 	}
 
-	// Bound the decoded output to what a valid image of this width can hold.
-	// CCITTFax is 1 bit/pixel, so a tiny Group 4 stream with a large /Columns
-	// and no /Rows limit could otherwise expand without limit for a consumer
-	// that drains the raw stream.  A conforming image has at most
-	// [limits.MaxImageHeight] rows and [limits.MaxImagePixels] pixels, so this
-	// cap never truncates a valid image.  The max(1, ...) keeps the bound
-	// self-contained: a width above [limits.MaxImagePixels] would otherwise
-	// floor the row count to zero, which the reader reads as "no limit".
-	cols := max(params.Columns, 1)
-	geoMax := max(1, min(limits.MaxImageHeight, limits.MaxImagePixels/cols))
-	if params.MaxRows <= 0 || params.MaxRows > geoMax {
-		params.MaxRows = geoMax
-	}
-
 	reader, err := ccittfax.NewReader(r, params)
 	if err != nil {
 		return asMalformedFilter(nil, err)
@@ -634,10 +620,27 @@ func (f FilterCCITTFax) toParams() *ccittfax.Params {
 	if cols == 0 {
 		cols = 1728
 	}
+
+	// Bound the decoded output to what a valid image of this width can hold.
+	// CCITTFax is 1 bit/pixel, so a tiny Group 4 stream with a large /Columns
+	// and no /Rows limit could otherwise expand without limit for a consumer
+	// that drains the raw stream.  A conforming image has at most
+	// [limits.MaxImageHeight] rows and [limits.MaxImagePixels] pixels, so this
+	// cap never truncates a valid image.  The max(1, ...) keeps the bound
+	// self-contained: a width above [limits.MaxImagePixels] would otherwise
+	// floor the row count to zero, which the reader reads as "no limit".
+	//
+	// The encoder is given the same bound, so that it refuses rows which the
+	// decoder would not return.
+	maxRows := max(1, min(limits.MaxImageHeight, limits.MaxImagePixels/max(cols, 1)))
+	if f.Rows > 0 && f.Rows < maxRows {
+		maxRows = f.Rows
+	}
+
 	return &ccittfax.Params{
 		Columns:                cols,
 		K:                      f.K,
-		MaxRows:                f.Rows,
+		MaxRows:                maxRows,
 		EndOfLine:              f.EndOfLine,
 		EncodedByteAlign:       f.EncodedByteAlign,
 		BlackIs1:               f.BlackIs1,
